@@ -83,6 +83,10 @@ OBJECT object END_GROUP End_Object BEGIN_OBJECT begin_group inf nan Infinity -in
 x- -x a,b a;b a=b (a) {a} <a> a#b a&b a~b a|b a!b a%b [a] /* */ a/*b // é µ ٣ １２
 """.split()
 CURATED += ["foo*/", "/*x", "a*/b", "x/*", "*/", "a*b", "a/b"]
+# spellings that str.casefold() maps onto a keyword and str.lower() / str.upper() do not
+# (long s, Kelvin sign), ligatures, dotless / dotted i
+CURATED += ["fal\u017fe", "FAL\u017fE", "Fal\u017fe", "\u212a", "nu\u217c\u217c", "tr\u1d1ce",
+            "\ufb01", "\u0130", "\u0131", "en\u217e", "\uff25\uff2e\uff24", "nul\u0142"]
 # date-times at the edges of the year range, with zone offsets that push the instant out
 CURATED += ["9999-12-31T23:59:59-07", "0001-01-01T00:00:00+01:00", "9999-365T23:00-1",
             "0001-001T00:00+12", "9999-12-31T23:59:59.999999Z", "0001-01-01T00:00",
